@@ -665,6 +665,19 @@ func genWrite(g *Gen) {
 			}
 		}
 	}
+	// 1a'. control frames through a Broadcaster (a heartbeat ping/pong to many connections): never compressed, never in the
+	// window, whatever the threshold — followed by data messages that use the window
+	for _, role := range roles {
+		for _, pd := range pds {
+			var calls []string
+			for i, n := range []int{0, 1, 30, 124, 125} {
+				calls = append(calls, fmt.Sprintf("bc:%d:%s", 9+i%2, w.atom(1, n)))
+			}
+			calls = append(calls, "msg:1:@t300.3", fmt.Sprintf("bc:9:%s", w.atom(1, 60)), "msg:1:@t300.3", "bc:2:@r200.3")
+			w.emit(role, pd, 1, big, calls)
+			g.Count("control-broadcast")
+		}
+	}
 	// 1b. the large length-encoding boundaries and the segment boundaries
 	large := []int{65534, 65535, 65536, 65537, wSeg - 1, wSeg, wSeg + 1, 2*wSeg + 5}
 	idx := 0
